@@ -129,8 +129,23 @@ def main(tier: str) -> int:
         integ, name, c = job
         return job, producer.simulate(c, num=num, seed=seed + 4 + len(name), hist_len=30 if tier == "quick" else 60)
 
-    with ThreadPoolExecutor(8) as ex:
+    from .. import readergraph as rg  # noqa: PLC0415
+
+    graph_unis = ["triples-names", "quads-prefix"] + (["graphs-datatype"] if tier == "thorough" else [])
+    with ThreadPoolExecutor(10) as ex:
+        graphs_f = [ex.submit(rg.explore, u) for u in graph_unis]
         sims = list(ex.map(sim, jobs))
+        graphs = [f.result() for f in graphs_f]
+    # (i) reader state graph: every reachable reader state x every legal next row, on a real Decoder
+    graph_stats = {}
+    gstates = gtrans = 0
+    for u, (edges, faults_at, gr) in zip(graph_unis, graphs):
+        st = rg.walk(u, edges, faults_at={},
+                     on_violation=lambda clause, what, rp, u=u: run.violation({"clause": clause, "binding": "reader-state-graph", "universe": u}, what, rp),
+                     on_drift=run.model_drift)
+        graph_stats[u] = dict(st, tlc_states=gr.distinct)
+        gstates += gr.distinct
+        gtrans += st["edges_replayed"]
     gen_states = 0
     parses = streams = 0
     samples = []
@@ -155,9 +170,10 @@ def main(tier: str) -> int:
             if len(samples) < 3 and den:
                 samples.append({"config": name, "rows": beh["rows"][:6], "denotes_first": beh["den"][:1]})
     return run.finish({
-        "states": gen_states, "transitions": gen_states, "traces_validated_against_impl": streams, "samples": samples, "exhaustive": False,
-        "streams": streams, "parses": parses,
-        "explanation": "JellyProducer (= every row sequence the Tier-1 reader accepts: arbitrary slot choice/eviction, splits, explicit-or-zero ids, elision or not, "
+        "states": gen_states + gstates, "transitions": gen_states + gtrans, "traces_validated_against_impl": streams + gtrans, "samples": samples, "exhaustive": False,
+        "streams": streams, "parses": parses, "reader_state_graph": graph_stats,
+        "explanation": "(i) reader state graph: TLC closes JellyProducer in tiny universes (Exhaustive=TRUE) and prints every transition (reader state, legal row, reader state', item); "
+                       "the harness walks the graph on a real Decoder, one test per transition, comparing the decoded item and the projected state. (ii) JellyProducer (= every row sequence the Tier-1 reader accepts: arbitrary slot choice/eviction, splits, explicit-or-zero ids, elision or not, "
                        "early/redundant entries, repeated options, cuts, empty frames, ids at the top of 4096-entry tables, disabled tables, versions 1-2) is simulated by TLC; "
                        "each behaviour carries its denotation; /verif's codec writes the bytes (delimited, and non-delimited when single-frame); "
                        "the six parse entry points must return exactly that denotation",
